@@ -255,6 +255,9 @@ type RespCase struct {
 	VName  string `json:"value_go,omitempty"`
 	// Err, when set, makes this an error-path case: goahttp.ErrorEncoder(ResponseEncoder, nil)(ctx, w, err)
 	Err *ErrDesc `json:"error,omitempty"`
+	// Mux makes this a case of the goa muxer's own NotFound response: GET of a path that is
+	// not mounted, Accept header = Accept (no designed type, nothing pre-set)
+	Mux bool `json:"mux_not_found,omitempty"`
 }
 
 // ErrDesc describes the Go error handed to goahttp.ErrorEncoder.
@@ -360,10 +363,16 @@ func specStatus(name string, timeout, temporary, fault bool) int {
 }
 
 func payloadOf(c RespCase) payload {
-	if c.Err == nil {
+	if c.Err == nil && !c.Mux {
 		vd := values[c.Value]
 		return payload{v: vd.v, kind: vd.Kind, facts: facts[c.Value], status: 200,
 			fresh: func() any { return freshOut(vd.Kind) }, same: func(out any) bool { return sameValue(out, vd.v) }}
+	}
+	if c.Mux {
+		want := goahttp.ErrorResponse{Name: "fault", Message: "404 page not found", Fault: true}
+		return payload{v: &want, kind: "struct", status: 404, facts: codecFacts{map[string]bool{"text": true}, nil},
+			fresh: func() any { return &goahttp.ErrorResponse{} },
+			same: func(out any) bool { got := *out.(*goahttp.ErrorResponse); got.ID = ""; return got == want }}
 	}
 	e := c.Err
 	var goErr error
@@ -479,9 +488,36 @@ func finish(pl payload, resp *http.Response, o *RespObs) {
 func runResp(c RespCase, pl payload) (o RespObs) {
 	o.Via = "recorder"
 	rec := httptest.NewRecorder()
-	serve(c, pl, rec, &o)
+	if c.Mux {
+		func() {
+			defer func() {
+				if r := recover(); r != nil {
+					o.Panic = fmt.Sprint(r)
+				}
+			}()
+			o.Enc = "unobserved" // chosen inside the muxer
+			req := httptest.NewRequest("GET", "/not/mounted", nil)
+			if c.Accept != "" {
+				req.Header["Accept"] = []string{string(c.Accept)}
+			}
+			newGoaMux(nil).ServeHTTP(rec, req)
+		}()
+	} else {
+		serve(c, pl, rec, &o)
+	}
 	finish(pl, rec.Result(), &o)
 	return o
+}
+
+// newGoaMux returns the real goa muxer with one mounted route (the muxer installs its
+// NotFound handler when the first route is registered).
+func newGoaMux(mounted http.HandlerFunc) goahttp.Muxer {
+	m := goahttp.NewMuxer()
+	if mounted == nil {
+		mounted = func(w http.ResponseWriter, r *http.Request) { w.WriteHeader(204) }
+	}
+	m.Handle("GET", "/case", mounted)
+	return m
 }
 
 // wireServer runs cases through a real net/http server and client.
@@ -500,7 +536,7 @@ type wireJob struct {
 
 func newWireServer() *wireServer {
 	ws := &wireServer{cases: map[string]*wireJob{}}
-	ws.srv = httptest.NewServer(http.HandlerFunc(func(w http.ResponseWriter, r *http.Request) {
+	ws.srv = httptest.NewServer(newGoaMux(func(w http.ResponseWriter, r *http.Request) {
 		ws.mu.Lock()
 		j := ws.cases[r.Header.Get("X-Case")]
 		ws.mu.Unlock()
@@ -521,8 +557,15 @@ func (ws *wireServer) run(c RespCase, pl payload) (o RespObs, err error) {
 	ws.cases[id] = &wireJob{c, pl, &o}
 	ws.mu.Unlock()
 	defer func() { ws.mu.Lock(); delete(ws.cases, id); ws.mu.Unlock() }()
-	req, _ := http.NewRequest("GET", ws.srv.URL, nil)
+	req, _ := http.NewRequest("GET", ws.srv.URL+"/case", nil)
 	req.Header.Set("X-Case", id)
+	if c.Mux {
+		o.Enc = "unobserved"
+		req, _ = http.NewRequest("GET", ws.srv.URL+"/not/mounted", nil)
+		if c.Accept != "" {
+			req.Header.Set("Accept", string(c.Accept))
+		}
+	}
 	resp, err := ws.srv.Client().Do(req)
 	if err != nil {
 		return o, err
@@ -571,6 +614,15 @@ func oracleResp(c RespCase, pl payload, o RespObs) (law, what string) {
 		wantType = "application/json"
 		want, why = "json", "missing or unrecognised preference"
 	}
+	seen := o.Enc != "unobserved"
+	if !seen {
+		// the encoder object cannot be seen (it lives inside the muxer): everything below is
+		// judged from what is on the wire
+		o.Enc = want
+		if len(o.Body) == 0 {
+			o.EncErr = "(nothing was written)"
+		}
+	}
 	if o.Enc != want {
 		if ct == "" && specPreference(accept) == "" {
 			return "unknown-preference-not-json", fmt.Sprintf("missing/unrecognised preference must fall back to JSON, encoder is %s", o.Enc)
@@ -603,6 +655,9 @@ func oracleResp(c RespCase, pl payload, o RespObs) (law, what string) {
 	}
 	if o.Enc == "text" && vd.Kind == "struct" {
 		if o.EncErr == "" || len(o.Body) != 0 {
+			if !seen {
+				return "text-encoded-struct", fmt.Sprintf("Content-Type announces text, which cannot carry the struct: nothing may be written (no other format substituted); body=%q", string(o.Body))
+			}
 			return "text-encoded-struct", fmt.Sprintf("text encoder must refuse a struct with an error and write nothing; error=%q body=%q", o.EncErr, string(o.Body))
 		}
 		return "", ""
@@ -1241,7 +1296,10 @@ func main() {
 	}
 	doResp := func(c RespCase) {
 		pld := payloadOf(c)
-		if c.Err != nil {
+		if c.Mux {
+			c.Value = 0
+			c.VName = "ErrorResponse of the muxer's 404"
+		} else if c.Err != nil {
 			c.Value = 0
 			c.VName = fmt.Sprintf("ErrorResponse of %s error %+v", c.Err.Kind, *c.Err)
 		} else {
@@ -1270,8 +1328,8 @@ func main() {
 			}
 			// the same case through a real net/http server and client (every error-path case,
 			// the fixed corpora, one in four of the rest), when net/http carries the header unchanged
-			if !failed && c.Stream != "witness" && (c.Err != nil || wireRuns < 2000 || evals%4 == 0) &&
-				wireSafe(string(c.Preset)) && wireSafe(string(o.Header)) {
+			if !failed && c.Stream != "witness" && (c.Err != nil || c.Mux || wireRuns < 2000 || evals%4 == 0) &&
+				wireSafe(string(c.Preset)) && wireSafe(string(o.Header)) && (!c.Mux || wireSafe(string(c.Accept))) {
 				wireRuns++
 				wpl := payloadOf(c)
 				wo, err := ws.run(c, wpl)
@@ -1286,7 +1344,7 @@ func main() {
 			}
 		}
 		ej, _ := json.Marshal(c.Err)
-		key := fmt.Sprintf("%q|%q|%q|%d|%s", c.Accept, c.CT, c.Preset, c.Value, ej)
+		key := fmt.Sprintf("%q|%q|%q|%d|%s|%v", c.Accept, c.CT, c.Preset, c.Value, ej, c.Mux)
 		if c.Accept != "" || c.CT != "" || c.Preset != "" {
 			distinct.Add("r" + key)
 		}
@@ -1305,18 +1363,25 @@ func main() {
 		f := pld.facts
 		ol, el := pl.oracle([]string{string(c.Accept), string(c.CT), string(c.Preset), string(o.Header), string(o.LiveHeader)})
 		enc, dec := 0, kindCode(o.Dec)
-		if o.Enc != "nil" {
+		if o.Enc == "unobserved" {
+			enc = 5
+		} else if o.Enc != "nil" {
 			enc = kindCode(o.Enc) + 1
 		}
 		if enc < 0 || (o.Enc != "nil" && enc == 0) || dec < 0 {
+			// (enc == 5: not observable)
 			res.Fail("unknown-codec-type", fmt.Sprintf("ResponseEncoder/ResponseDecoder returned %s / %s", o.Enc, o.Dec), c)
 			return
 		}
 		ekind := 0
-		if e := c.Err; e != nil {
+		encErr := o.EncErr != ""
+		if c.Mux {
+			ekind = 33
+			encErr = len(o.Body) == 0 // the handler discards the Encode error: nothing written = refused
+		} else if e := c.Err; e != nil {
 			ekind = 1 + b2i(e.Kind == "unsupported" || e.Name == "unsupported_media_type") + 2*(b2i(e.Timeout)+2*(b2i(e.Temporary)+2*(b2i(e.Fault)+2*b2i(e.Kind == "plain"))))
 		}
-		code := vkCode(pld.kind) + 4*(b2i(f.refuses["json"])+2*(b2i(f.refuses["xml"])+2*(b2i(f.refuses["gob"])+2*(enc+5*(dec+4*(b2i(o.EncErr != "")+2*(b2i(o.Recovered)+2*ekind)))))))
+		code := vkCode(pld.kind) + 4*(b2i(f.refuses["json"])+2*(b2i(f.refuses["xml"])+2*(b2i(f.refuses["gob"])+2*(enc+6*(dec+4*(b2i(encErr)+2*(b2i(o.Recovered)+2*ekind)))))))
 		mcases = append(mcases, mcase{kind: 'R', a: in.id(string(c.Accept)), c: in.id(string(c.CT)), p: in.id(string(c.Preset)),
 			hdr: in.id(string(o.Header)), code: code, ol: ol, el: el, ost: o.Status, oct: in.id("")})
 		logCase(c, o)
@@ -1388,7 +1453,26 @@ func main() {
 			}
 		}
 	}
+	// ---- the muxer's own 404 response over the Accept grammar
+	if *replay == "" {
+		nf := append(append([]string{""}, five...), acceptCorpus...)
+		for _, f := range five {
+			for _, p := range mtParams {
+				nf = append(nf, f+p)
+			}
+		}
+		nf = append(nf, longValues...)
+		for _, a := range nf {
+			doResp(RespCase{Stream: "notfound", Accept: BStr(a), Mux: true})
+		}
+	}
 	for i := 0; i < nResp; i++ {
+		if i%16 == 11 {
+			a, _ := genAccept(rng)
+			res.Count("notfound_random")
+			doResp(RespCase{Stream: "notfound", Accept: BStr(a), Mux: true})
+			continue
+		}
 		if i%16 == 5 {
 			// random error-path case
 			a, _ := genAccept(rng)
@@ -1580,7 +1664,7 @@ func main() {
 
 	res.Evaluations = evals
 	res.Distinct = len(distinct)
-	res.Rule = "response: Accept grammar (absent, the five exact types, with parameters/q-values, comma lists, wildcards, +json/+xml/+gob suffixed, case/space variants, garbage incl. non-UTF-8, 2-5 KB values) x designed content type via goahttp.ContentTypeKey (absent, five exact, parameters, +json/+xml/+gob/+html/+txt vendor types, unknown; unparsable ones in the hostile stream) x pre-set Content-Type (main stream inside preset_ok: absent, plain, parsable with parameters, agreeing suffix; witness stream: the recorded finding with neighbours; hostile stream: anything) x 12 values (struct, string, *string, []byte), observed on the wire (rec.Result(), plus real net/http round trips); error path: goahttp.ErrorEncoder over Accept x designed type x pre-set x 12 errors (8 ServiceError flag vectors, unsupported media type, wrapped, plain), ErrorResponse decoded back from the wire; request: Content-Type grammar x 12 values, body in the announced format; RequestEncoder x 7 headers. distinct = distinct (accept, designed, pre-set, value) resp. (header, value) tuples; non-trivial = at least one of the three strings present (resp.) / header present (req.)"
+	res.Rule = "response: Accept grammar (absent, the five exact types, with parameters/q-values, comma lists, wildcards, +json/+xml/+gob suffixed, case/space variants, garbage incl. non-UTF-8, 2-5 KB values) x designed content type via goahttp.ContentTypeKey (absent, five exact, parameters, +json/+xml/+gob/+html/+txt vendor types, unknown; unparsable ones in the hostile stream) x pre-set Content-Type (main stream inside preset_ok: absent, plain, parsable with parameters, agreeing suffix; witness stream: the recorded finding with neighbours; hostile stream: anything) x 12 values (struct, string, *string, []byte), observed on the wire (rec.Result(), plus real net/http round trips); error path: goahttp.ErrorEncoder over Accept x designed type x pre-set x 12 errors (8 ServiceError flag vectors, unsupported media type, wrapped, plain), ErrorResponse decoded back from the wire; muxer NotFound: GET of an unmounted path through goahttp.NewMuxer() over the Accept grammar (status 404, Content-Type, body on the wire); request: Content-Type grammar x 12 values, body in the announced format; RequestEncoder x 7 headers. distinct = distinct (accept, designed, pre-set, value) resp. (header, value) tuples; non-trivial = at least one of the three strings present (resp.) / header present (req.)"
 	res.Extra["model_cases_response"] = modelled
 	res.Extra["model_cases_request"] = qn
 	res.Extra["model_cases_request_encoder"] = en
